@@ -153,6 +153,7 @@ class Policy:
         self.fo_refusal = (ST_CONN_FAIL, (0x0109,))
         self.mutate_reply = None      # callable(info: dict, frame: bytes) -> bytes | None (None = drop the reply)
         self.close_after_unregister = True
+        self.list_identity_extra = b""   # a second CPF item (type, length, data) after the identity item, e.g. CIP Security 0x86
 
 
 class RefTarget:
@@ -212,13 +213,25 @@ class RefTarget:
 
     # ---- UDP ListIdentity (discover) ----------------------------------------------------------------------------
     def udp(self, data, addr):
+        # a datagram is one encapsulation frame too (C11): 24-byte header whose length field equals what follows, status / options 0
+        log = self.log
+        log.c("udp-datagrams")
+        if len(data) < enc.HEADER:
+            log.v("C11", "udp-frame-short", f"UDP datagram of {len(data)} bytes is shorter than an encapsulation header", bytes(data[:40]))
+            return []
+        if len(data) != enc.HEADER + enc.u16(data, 2):
+            log.v("C11", "udp-frame-length", f"UDP datagram of {len(data)} bytes: the header announces {enc.u16(data, 2)} bytes after the 24-byte header, {len(data) - enc.HEADER} follow",
+                  bytes(data[:40]))
+        if enc.u16(data, 0) == enc.CMD_LIST_IDENTITY and (int.from_bytes(data[8:12], "little") or int.from_bytes(data[20:24], "little")):
+            log.v("C11", "udp-nonzero-status-or-options", "broadcast ListIdentity with non-zero status or options", bytes(data[:40]))
         try:
             h = enc.parse_header(data)
         except enc.EncapError:
             return []
         if h["command"] != enc.CMD_LIST_IDENTITY:
             return []
-        body = (1).to_bytes(2, "little") + self.front.identity.list_identity_item()
+        extra = self.policy.list_identity_extra
+        body = (2 if extra else 1).to_bytes(2, "little") + self.front.identity.list_identity_item() + extra
         return [enc.build_frame(enc.CMD_LIST_IDENTITY, 0, body, context=h["context"])]
 
 
@@ -312,7 +325,8 @@ class TcpConn:
             elif h["session"] != (granted_to_client if granted_to_client is not None else 0):
                 log.v("C11", "wrong-session", f"ListIdentity carries session {h['session']:#x}, " +
                       (f"granted {self.session:#x}" if self.session is not None else "no session is registered on this connection"), frame[:32])
-            rbody = (1).to_bytes(2, "little") + t.front.identity.list_identity_item()
+            extra = t.policy.list_identity_extra
+            rbody = (2 if extra else 1).to_bytes(2, "little") + t.front.identity.list_identity_item() + extra
             return self.reply({"kind": "list_identity"}, enc.build_frame(cmd, h["session"], rbody, context=h["context"]))
         if cmd == enc.CMD_UNREGISTER:
             if body:
